@@ -452,6 +452,25 @@ pub fn run(ctx: &Ctx) -> Value {
             if iso { break; }
         } }
     } }
+    // negative calendar / ISO years: century and two-digit fields have no value there, so any supplied value - in particular the
+    // euclidean or the absolute-value reading of such a year - contradicts the date (O1), whichever route resolves it
+    for (y, m, d) in [(-5, 6, 15), (-1, 12, 31), (-100, 1, 1), (-99, 3, 1), (-262_143, 1, 1), (0, 1, 1), (0, 1, 2), (-1, 1, 1)] {
+        let date = NaiveDate::from_ymd_opt(y, m, d).unwrap();
+        let (iy, iw, wd) = (date.iso_week().year(), date.iso_week().week(), date.weekday().num_days_from_monday());
+        for which in 0..6 { for conv in 0..2 {
+            let (cy, ciy) = (y as i64, iy as i64);
+            let both = |yy: i64| -> (i64, i64) { if conv == 0 { (yy.div_euclid(100), yy.rem_euclid(100)) } else { (yy.abs() / 100, yy.abs() % 100) } };
+            ep += 1;
+            let mut e = Episode::new(ep);
+            // a sufficient combination first ...
+            if which < 3 { e.set("year", cy); e.set("month", m as i64); e.set("day", d as i64); } else { e.set("isoyear", ciy); e.set("isoweek", iw as i64); e.set("weekday", wd as i64); }
+            // ... then one field of the OTHER (or the same) year group in a wrong convention
+            match which { 0 => e.set("isoyear_mod_100", both(ciy).1), 1 => e.set("isoyear_div_100", both(ciy).0.max(0)), 2 => e.set("year_mod_100", both(cy).1),
+                          3 => e.set("year_mod_100", both(cy).1), 4 => e.set("year_div_100", both(cy).0.max(0)), _ => e.set("isoyear_mod_100", both(ciy).1) }
+            e.to_naive_date(None);
+            e.flush(&mut tw);
+        } }
+    }
     let mut swept = 0u64;
     let values: Vec<W> = {
         let mut v = Vec::new();
